@@ -91,6 +91,15 @@ func (p *pipeline) executeStage(parentStageID string, stage stagepkg.Stage) {
 
 	stageID := uuid.New().String()
 	p.sm.executeStage(parentStageID, stageID, stage)
+	defer func() {
+		if r := recover(); r != nil {
+			// NOTE: stage is tracked as pending, if it panics in current goroutine(plan or execute it synchronously
+			// under a parent stage which runs in worker pool), the panic is handled as parent's failure,
+			// need complete current stage too, else pipeline never completes.
+			p.sm.completeStage(stageID, errorpkg.Error(r))
+			panic(r)
+		}
+	}()
 
 	stage.Execute(stage.Plan(), func() {
 		// after current stage execute completed, then plan next stages
